@@ -605,25 +605,31 @@ def _parity_at_return(fn, cfg, ret, yname, fold):
 
 
 def _parse_dispatch_cells(ctx, repo, label):
-    """S256Point.parse evaluated for every length 0..130 (the function looks at its argument only through len() compared with
-    constants and hands it on): which decoder is reached"""
+    """S256Point.parse evaluated for every length 0..130 and first byte in {00, 02, 03, 04, 05, ff} (the function looks at its argument only
+    through len() and, possibly, its first byte compared with constants, and hands it on): which decoder is reached.  A 32-byte string is an
+    x-only key whatever it starts with; 33 / 65 bytes go to the SEC decoder (which judges the tag); everything else is refused"""
     from sa.cells import ClassRef, Evaluator, Raised
     spec = "%s:S256Point.parse" % label
     mod, fn = repo.func(spec)
     problems = []
     for L in range(0, 131):
-        ctx.count("cells")
-        ev = Evaluator(repo, method_hooks={("S256Point", "parse_xonly"): lambda b, *a, **k: "xonly", ("S256Point", "parse_sec"): lambda b, *a, **k: "sec"})
-        try:
-            r = ev.call(spec, [bytes(L)], self_obj=ClassRef(label, "S256Point"))
-        except Raised:
-            r = None
-        want = {32: "xonly", 33: "sec", 65: "sec"}.get(L)
-        if r != want:
-            problems.append("%d bytes: %s (expected %s)" % (L, "rejected" if r is None else "handed to the %s decoder" % r, "rejection" if want is None else "the %s decoder" % want))
+        for first in (0x00, 0x02, 0x03, 0x04, 0x05, 0xFF):
+            if L == 0 and first:
+                continue
+            ctx.count("cells")
+            data = (bytes([first]) + bytes(L - 1)) if L else b""
+            ev = Evaluator(repo, method_hooks={("S256Point", "parse_xonly"): lambda b, *a, **k: "xonly", ("S256Point", "parse_sec"): lambda b, *a, **k: "sec"})
+            try:
+                r = ev.call(spec, [data], self_obj=ClassRef(label, "S256Point"))
+            except Raised:
+                r = None
+            want = {32: "xonly", 33: "sec", 65: "sec"}.get(L)
+            if r != want:
+                problems.append("%d bytes starting with %02x: %s (expected %s)" % (L, first, "rejected" if r is None else "handed to the %s decoder" % r,
+                                                                                   "rejection" if want is None else "the %s decoder" % want))
     if problems:
-        return ctx.bad(spec, "length dispatch: " + "; ".join(problems[:4]), fn, mod, key="accept")
-    return ctx.ok(spec, "lengths 32 → x-only, 33 / 65 → SEC, every other length 0..130 rejected", fn, mod, key="accept")
+        return ctx.bad(spec, "dispatch: " + "; ".join(problems[:3]) + (" … (%d cells differ)" % len(problems) if len(problems) > 3 else ""), fn, mod, key="dispatch-cells")
+    return ctx.ok(spec, "lengths 32 → x-only (whatever the first byte), 33 / 65 → SEC, every other length 0..130 rejected", fn, mod, key="dispatch-cells")
 
 
 def c03_9(ctx):
@@ -636,13 +642,14 @@ def c03_9(ctx):
         key = "len(%s)" % p
         res = rl.accept_set(ctx, "%s:S256Point.parse" % label, [key], ISet.of([32, 33, 65]), targets="returns", prefer=(31, 64),
                             init={key: ISet.range(0, None)}, repo=repo, what="encoding length " + key)
-        if any(r.status == "error" for r in res):
-            # not an if-chain over the length (a table, a computed name): decide by evaluating the dispatch for each length
-            try:
-                res = [_parse_dispatch_cells(ctx, repo, label)]
-            except Undecided:
-                pass
-        out += res
+        # the dispatch itself, decided by evaluating it for each (length, first byte) cell; it replaces the interval verdict when that one is undecided
+        try:
+            cells = [_parse_dispatch_cells(ctx, repo, label)]
+        except Undecided:
+            cells = []
+        if cells and any(r.status == "error" for r in res):
+            res = []
+        out += res + cells
     return out
 
 
